@@ -195,6 +195,8 @@ def gen_scenario(rng: random.Random, prog, *, crash=0.5, faults=0.0, paging=0.5,
     if rng.random() < faults:
         sc["faults"] = {str(rng.randrange(1, 7)): rng.choice(["throttle429", "service500", "invalid_token", "invalid_param",
                                                              "notfound404", "conflict409"])}
+        if rng.random() < 0.4:
+            sc["faults_after_apply"] = list(sc["faults"])       # the call is applied, only its answer is lost
     if rng.random() < paging:
         sc["paging"] = "random"
     if rng.random() < paging * 0.6:
